@@ -4,12 +4,13 @@ package elasticquota
 //
 // Explicit-state BFS (mc.BFS, replay based) over closed-loop histories on the real elasticquota.Plugin:
 //   create(p) = informer OnPodAdd of a pending pod, attempt(p) = PreFilter and - on Success - Reserve,
-//   unreserve(p), delete(p) = informer OnPodDelete, raise/lower max of A and P, change min of A,
-//   add/remove a node, controller runtime sync of a leaf quota (RefreshRuntime),
-// for each of the four configurations EnableRuntimeQuota x EnableCheckParentQuota.
+//   unreserve(p), delete(p) = informer OnPodDelete, raise/lower max, change min, add/remove a node,
+//   controller runtime sync of a leaf quota (RefreshRuntime),
+// for each of the four configurations EnableRuntimeQuota x EnableCheckParentQuota, on two small quota
+// universes ("tree": root->{P->{A,B},C}; "chain": root->G->{P->A, D}, so that a pod has two ancestors).
 //
 // The oracle is an independent ledger written from the property statement (plain int64 sums over the pods
-// the harness itself reserved); it never asks the code what is used. See c03Expectation / Invariants.
+// the harness itself reserved); it never asks the code what is used. See expectation() / Invariants().
 
 import (
 	"context"
@@ -40,7 +41,7 @@ import (
 )
 
 // ---------------------------------------------------------------------------------------------------------
-// static universe
+// static universes
 
 const (
 	c03CPU = 0 // ledger unit: milli cores
@@ -50,7 +51,7 @@ const (
 
 var c03DimName = [c03ND]corev1.ResourceName{corev1.ResourceCPU, corev1.ResourceMemory}
 
-// c03Undeclared is a resource no quota of the universe declares in max.
+// c03Undeclared is a resource no quota of the universes declares in max.
 const c03Undeclared = corev1.ResourceName("example.com/undeclared")
 
 type c03Vec [c03ND]int64
@@ -65,38 +66,15 @@ func (v c03Vec) list() corev1.ResourceList {
 }
 
 type c03QuotaDef struct {
-	name, parent string
-	isParent     bool
-	lend         bool
-	maxLevels    []c03Vec
-	maxStart     int
-	minLevels    []c03Vec
-	minStart     int
+	name      string
+	parent    int // index of the parent quota, -1 = the abstract root quota
+	isParent  bool
+	lend      bool
+	maxLevels []c03Vec
+	maxStart  int
+	minLevels []c03Vec
+	minStart  int
 }
-
-// Every (max level, min level) combination below satisfies the admission webhook's rules (min <= max in every
-// dimension, children's min sum <= parent's min, parent and children declare the same max keys), so every
-// quota event of the alphabet is one the real API server would let through.
-var c03Quotas = []c03QuotaDef{
-	{name: "c03-p", parent: extension.RootQuotaName, isParent: true, lend: true,
-		maxLevels: []c03Vec{c03V(4, 5), c03V(6, 6), c03V(8, 8)}, maxStart: 1, minLevels: []c03Vec{c03V(4, 4)}},
-	{name: "c03-a", parent: "c03-p", lend: true,
-		maxLevels: []c03Vec{c03V(2, 2), c03V(4, 4), c03V(6, 6)}, maxStart: 1, minLevels: []c03Vec{c03V(1, 1), c03V(2, 2)}, minStart: 1},
-	{name: "c03-b", parent: "c03-p", lend: false,
-		maxLevels: []c03Vec{c03V(4, 4)}, minLevels: []c03Vec{c03V(2, 2)}},
-	{name: "c03-c", parent: extension.RootQuotaName, lend: true,
-		maxLevels: []c03Vec{c03V(5, 5)}, minLevels: []c03Vec{c03V(1, 1)}},
-}
-
-const (
-	c03QP = 0
-	c03QA = 1
-	c03QB = 2
-	c03QC = 3
-)
-
-// c03Parent[q] is the index of the parent quota (-1 = the abstract root).
-var c03Parent = []int{-1, c03QP, c03QP, -1}
 
 type c03PodDef struct {
 	name           string
@@ -105,24 +83,87 @@ type c03PodDef struct {
 	noMemKey       bool  // the pod does not carry a memory request at all
 	undeclared     int64 // amount of the undeclared resource requested (0 = none)
 	nonPreemptible bool
-	thoroughOnly   bool
 }
 
-var c03Pods = []c03PodDef{
-	{name: "a1", quota: c03QA, req: c03V(3, 1)},
-	{name: "a2", quota: c03QA, req: c03V(1, 2), nonPreemptible: true},
-	{name: "a3", quota: c03QA, req: c03V(2, 0), noMemKey: true, undeclared: 9},
-	{name: "b1", quota: c03QB, req: c03V(3, 3)},
-	{name: "b2", quota: c03QB, req: c03V(2, 1), nonPreemptible: true},
-	{name: "c1", quota: c03QC, req: c03V(5, 2)},
-	{name: "a4", quota: c03QA, req: c03V(1, 1), nonPreemptible: true, thoroughOnly: true},
-	{name: "c2", quota: c03QC, req: c03V(1, 1), nonPreemptible: true, thoroughOnly: true},
+// c03Universe: quotas are listed parents first (that is also the order they are delivered in). Every
+// (max level, min level) combination satisfies the admission webhook's rules (min <= max in every dimension,
+// children's min sum <= parent's min, parent and children declare the same max keys), so every quota event of
+// the alphabets is one the real API server would let through. At most 4 quotas and 8 pods (memo packing).
+type c03Universe struct {
+	name       string
+	desc       string
+	quotas     []c03QuotaDef
+	pods       []c03PodDef
+	syncLeaves []int
+	node1      c03Vec
+	node2      c03Vec
 }
 
-var (
-	c03Node1Cap = c03V(8, 8)
-	c03Node2Cap = c03V(4, 4)
-)
+func (u *c03Universe) parentName(q int) string {
+	if u.quotas[q].parent < 0 {
+		return extension.RootQuotaName
+	}
+	return u.quotas[u.quotas[q].parent].name
+}
+
+// inSubtree tells whether quota leaf is q or a descendant of q.
+func (u *c03Universe) inSubtree(leaf, q int) bool {
+	for x := leaf; x >= 0; x = u.quotas[x].parent {
+		if x == q {
+			return true
+		}
+	}
+	return false
+}
+
+var c03Tree = &c03Universe{
+	name: "tree",
+	desc: "root->{c03-p->{c03-a, c03-b(non-lending)}, c03-c}",
+	quotas: []c03QuotaDef{
+		{name: "c03-p", parent: -1, isParent: true, lend: true,
+			maxLevels: []c03Vec{c03V(4, 5), c03V(6, 6), c03V(8, 8)}, maxStart: 1, minLevels: []c03Vec{c03V(4, 4)}},
+		{name: "c03-a", parent: 0, lend: true,
+			maxLevels: []c03Vec{c03V(2, 2), c03V(4, 4), c03V(6, 6)}, maxStart: 1, minLevels: []c03Vec{c03V(1, 1), c03V(2, 2)}, minStart: 1},
+		{name: "c03-b", parent: 0, lend: false, maxLevels: []c03Vec{c03V(4, 4)}, minLevels: []c03Vec{c03V(2, 2)}},
+		{name: "c03-c", parent: -1, lend: true, maxLevels: []c03Vec{c03V(5, 5)}, minLevels: []c03Vec{c03V(1, 1)}},
+	},
+	pods: []c03PodDef{
+		{name: "a1", quota: 1, req: c03V(3, 1)},
+		{name: "a2", quota: 1, req: c03V(1, 2), nonPreemptible: true},
+		{name: "a3", quota: 1, req: c03V(2, 0), noMemKey: true, undeclared: 9},
+		{name: "b1", quota: 2, req: c03V(3, 3)},
+		{name: "b2", quota: 2, req: c03V(2, 1), nonPreemptible: true},
+		{name: "c1", quota: 3, req: c03V(5, 2)},
+		{name: "a4", quota: 1, req: c03V(1, 1), nonPreemptible: true}, // thorough only
+	},
+	syncLeaves: []int{1, 2, 3},
+	node1:      c03V(8, 8),
+	node2:      c03V(4, 4),
+}
+
+// c03Chain gives pods of c03-a two ancestors below the root (c03-p and c03-g): the grandparent's lowest max is
+// below the parent's, so "within EVERY ancestor's limit" is decided by the second step of the ancestor walk.
+var c03Chain = &c03Universe{
+	name: "chain",
+	desc: "root->c03-g->{c03-p->c03-a, c03-d}",
+	quotas: []c03QuotaDef{
+		{name: "c03-g", parent: -1, isParent: true, lend: true,
+			maxLevels: []c03Vec{c03V(3, 3), c03V(5, 5)}, maxStart: 1, minLevels: []c03Vec{c03V(2, 3)}},
+		{name: "c03-p", parent: 0, isParent: true, lend: true,
+			maxLevels: []c03Vec{c03V(4, 4), c03V(6, 6)}, maxStart: 1, minLevels: []c03Vec{c03V(1, 2)}},
+		{name: "c03-a", parent: 1, lend: true, maxLevels: []c03Vec{c03V(4, 4)}, minLevels: []c03Vec{c03V(1, 2)}},
+		{name: "c03-d", parent: 0, lend: true, maxLevels: []c03Vec{c03V(4, 4)}, minLevels: []c03Vec{c03V(1, 1)}},
+	},
+	pods: []c03PodDef{
+		{name: "a1", quota: 2, req: c03V(3, 1)},
+		{name: "a2", quota: 2, req: c03V(1, 2), nonPreemptible: true},
+		{name: "d1", quota: 3, req: c03V(2, 2)},
+		{name: "a3", quota: 2, req: c03V(2, 0), noMemKey: true, undeclared: 9},
+	},
+	syncLeaves: []int{2, 3},
+	node1:      c03V(8, 8),
+	node2:      c03V(4, 4),
+}
 
 // ---------------------------------------------------------------------------------------------------------
 // alphabet
@@ -148,10 +189,11 @@ type c03Op struct {
 
 type c03Cfg struct {
 	part        string
+	u           *c03Universe
 	runtime     bool
 	checkParent bool
 	args        *c03config.ElasticQuotaArgs // shared, read-only
-	pods        []int                       // indexes into c03Pods
+	nPods       int                         // the first nPods pods of the universe take part
 	ops         []c03Op
 	res         *mc.Result
 	newPlugin   func(cfg *c03Cfg) *Plugin
@@ -162,27 +204,32 @@ type c03Cfg struct {
 }
 
 func c03BuildOps(cfg *c03Cfg) {
-	for _, pi := range cfg.pods {
-		n := c03Pods[pi].name
+	u := cfg.u
+	for pi := 0; pi < cfg.nPods; pi++ {
+		n := u.pods[pi].name
 		cfg.ops = append(cfg.ops,
 			c03Op{c03OpCreate, pi, "create(" + n + ")"},
 			c03Op{c03OpAttempt, pi, "attempt(" + n + ")"},
 			c03Op{c03OpUnreserve, pi, "unreserve(" + n + ")"},
 			c03Op{c03OpDelete, pi, "delete(" + n + ")"})
 	}
-	for _, q := range []int{c03QA, c03QP} {
-		cfg.ops = append(cfg.ops,
-			c03Op{c03OpRaiseMax, q, "raiseMax(" + c03Quotas[q].name + ")"},
-			c03Op{c03OpLowerMax, q, "lowerMax(" + c03Quotas[q].name + ")"})
+	for q, d := range u.quotas {
+		if len(d.maxLevels) > 1 {
+			cfg.ops = append(cfg.ops,
+				c03Op{c03OpRaiseMax, q, "raiseMax(" + d.name + ")"},
+				c03Op{c03OpLowerMax, q, "lowerMax(" + d.name + ")"})
+		}
 	}
-	cfg.ops = append(cfg.ops,
-		c03Op{c03OpToggleMin, c03QA, "toggleMin(" + c03Quotas[c03QA].name + ")"},
-		c03Op{c03OpNodeAdd, 0, "addNode(n2)"},
-		c03Op{c03OpNodeDel, 0, "removeNode(n2)"})
+	for q, d := range u.quotas {
+		if len(d.minLevels) > 1 {
+			cfg.ops = append(cfg.ops, c03Op{c03OpToggleMin, q, "toggleMin(" + d.name + ")"})
+		}
+	}
+	cfg.ops = append(cfg.ops, c03Op{c03OpNodeAdd, 0, "addNode(n2)"}, c03Op{c03OpNodeDel, 0, "removeNode(n2)"})
 	if cfg.withSync {
 		// the ElasticQuota controller's runtime worker calls RefreshRuntime on every leaf quota, in lister order
-		for _, q := range []int{c03QA, c03QB, c03QC} {
-			cfg.ops = append(cfg.ops, c03Op{c03OpSync, q, "controllerSync(" + c03Quotas[q].name + ")"})
+		for _, q := range u.syncLeaves {
+			cfg.ops = append(cfg.ops, c03Op{c03OpSync, q, "controllerSync(" + u.quotas[q].name + ")"})
 		}
 	}
 }
@@ -219,7 +266,7 @@ type c03Sys struct {
 	pending []uint8
 }
 
-func c03MakePod(d c03PodDef) *corev1.Pod {
+func c03MakePod(u *c03Universe, d c03PodDef) *corev1.Pod {
 	req := corev1.ResourceList{corev1.ResourceCPU: *resource.NewMilliQuantity(d.req[c03CPU], resource.DecimalSI)}
 	if !d.noMemKey {
 		req[corev1.ResourceMemory] = *resource.NewQuantity(d.req[c03Mem], resource.BinarySI)
@@ -229,7 +276,7 @@ func c03MakePod(d c03PodDef) *corev1.Pod {
 	}
 	pod := &corev1.Pod{
 		ObjectMeta: metav1.ObjectMeta{Namespace: "c03", Name: d.name, UID: k8stypes.UID("uid-" + d.name),
-			Labels: map[string]string{extension.LabelQuotaName: c03Quotas[d.quota].name}},
+			Labels: map[string]string{extension.LabelQuotaName: u.quotas[d.quota].name}},
 		Spec: corev1.PodSpec{Containers: []corev1.Container{{Name: "main", Resources: corev1.ResourceRequirements{Requests: req}}}},
 	}
 	pod.Status.Phase = corev1.PodPending
@@ -239,12 +286,13 @@ func c03MakePod(d c03PodDef) *corev1.Pod {
 	return pod
 }
 
-func c03MakeQuota(d c03QuotaDef, max, min c03Vec) *c03sched.ElasticQuota {
+func c03MakeQuota(u *c03Universe, qi int, max, min c03Vec) *c03sched.ElasticQuota {
+	d := u.quotas[qi]
 	q := &c03sched.ElasticQuota{
 		ObjectMeta: metav1.ObjectMeta{Namespace: "c03", Name: d.name, Labels: map[string]string{}, Annotations: map[string]string{}},
 		Spec:       c03sched.ElasticQuotaSpec{Max: max.list(), Min: min.list()},
 	}
-	q.Labels[extension.LabelQuotaParent] = d.parent
+	q.Labels[extension.LabelQuotaParent] = u.parentName(qi)
 	if d.isParent {
 		q.Labels[extension.LabelQuotaIsParent] = "true"
 	} else {
@@ -284,25 +332,25 @@ func (s *c03Sys) build() {
 		return
 	}
 	s.built = true
-	cfg := s.cfg
+	cfg, u := s.cfg, s.cfg.u
 	s.pl = cfg.newPlugin(cfg)
 	s.mgr = s.pl.groupQuotaManager
-	s.podObjs = make([]*corev1.Pod, len(c03Pods))
-	s.podSt = make([]uint8, len(c03Pods))
-	for _, pi := range cfg.pods {
-		s.podObjs[pi] = c03MakePod(c03Pods[pi])
+	s.podObjs = make([]*corev1.Pod, cfg.nPods)
+	s.podSt = make([]uint8, cfg.nPods)
+	for pi := 0; pi < cfg.nPods; pi++ {
+		s.podObjs[pi] = c03MakePod(u, u.pods[pi])
 	}
-	nq := len(c03Quotas)
+	nq := len(u.quotas)
 	s.maxLvl, s.minLvl, s.lowered = make([]int, nq), make([]int, nq), make([]bool, nq)
 	s.quotaObjs = make([]*c03sched.ElasticQuota, nq)
-	// initial environment: node n1 exists, the four quotas are delivered parents first
-	s.pl.OnNodeAdd(c03MakeNode("n1", c03Node1Cap))
-	for qi, d := range c03Quotas {
+	// initial environment: node n1 exists, the quotas are delivered parents first
+	s.pl.OnNodeAdd(c03MakeNode("n1", u.node1))
+	for qi, d := range u.quotas {
 		s.maxLvl[qi], s.minLvl[qi] = d.maxStart, d.minStart
-		s.quotaObjs[qi] = c03MakeQuota(d, s.max(qi), s.min(qi))
+		s.quotaObjs[qi] = c03MakeQuota(u, qi, s.max(qi), s.min(qi))
 		s.pl.OnQuotaAdd(s.quotaObjs[qi])
 	}
-	s.node2 = c03MakeNode("n2", c03Node2Cap)
+	s.node2 = c03MakeNode("n2", u.node2)
 	for i, o := range s.pending {
 		if en, _ := s.applyReal(int(o), false); !en {
 			panic(fmt.Sprintf("c03: replay diverged: event %d (%s) of the prefix is not enabled", i, cfg.ops[o].name))
@@ -311,38 +359,28 @@ func (s *c03Sys) build() {
 	s.pending = nil
 }
 
-func (s *c03Sys) max(q int) c03Vec { return c03Quotas[q].maxLevels[s.maxLvl[q]] }
-func (s *c03Sys) min(q int) c03Vec { return c03Quotas[q].minLevels[s.minLvl[q]] }
-
-// inSubtree tells whether quota leaf is q or a descendant of q.
-func c03InSubtree(leaf, q int) bool {
-	for x := leaf; x >= 0; x = c03Parent[x] {
-		if x == q {
-			return true
-		}
-	}
-	return false
-}
+func (s *c03Sys) max(q int) c03Vec { return s.cfg.u.quotas[q].maxLevels[s.maxLvl[q]] }
+func (s *c03Sys) min(q int) c03Vec { return s.cfg.u.quotas[q].minLevels[s.minLvl[q]] }
 
 // refUsed is the reference usage of quota q: the sum of the requests of the pods the harness reserved in q's
 // subtree, in the dimensions the quotas declare (cpu, memory; the undeclared resource is never charged).
 func (s *c03Sys) refUsed(q int, onlyNonPreemptible bool) c03Vec {
-	var u c03Vec
-	for _, pi := range s.cfg.pods {
-		d := c03Pods[pi]
-		if s.podSt[pi] != c03Reserved || !c03InSubtree(d.quota, q) || (onlyNonPreemptible && !d.nonPreemptible) {
+	var used c03Vec
+	for pi := 0; pi < s.cfg.nPods; pi++ {
+		d := s.cfg.u.pods[pi]
+		if s.podSt[pi] != c03Reserved || !s.cfg.u.inSubtree(d.quota, q) || (onlyNonPreemptible && !d.nonPreemptible) {
 			continue
 		}
 		for k := 0; k < c03ND; k++ {
-			u[k] += d.req[k]
+			used[k] += d.req[k]
 		}
 	}
-	return u
+	return used
 }
 
 func (s *c03Sys) updateQuota(q int) {
 	old := s.quotaObjs[q]
-	nu := c03MakeQuota(c03Quotas[q], s.max(q), s.min(q))
+	nu := c03MakeQuota(s.cfg.u, q, s.max(q), s.min(q))
 	s.quotaObjs[q] = nu
 	s.pl.OnQuotaUpdate(old, nu)
 }
@@ -360,7 +398,7 @@ func (s *c03Sys) Apply(op int, check bool) (bool, []mc.Violation) {
 			s.pending = append(s.pending, uint8(op))
 			return true, nil
 		}
-		if l, ok := s.cfg.memo.get(s.pending); ok && !l.enabled(s.cfg.ops[op]) {
+		if l, ok := s.cfg.memo.get(s.pending); ok && !l.enabled(s.cfg.u, s.cfg.ops[op]) {
 			return false, nil
 		}
 		s.build()
@@ -396,7 +434,7 @@ func (s *c03Sys) applyReal(op int, check bool) (bool, []mc.Violation) {
 		s.pl.OnPodDelete(s.podObjs[o.arg])
 		s.podSt[o.arg] = c03Absent
 	case c03OpRaiseMax:
-		if s.maxLvl[o.arg] >= len(c03Quotas[o.arg].maxLevels)-1 {
+		if s.maxLvl[o.arg] >= len(s.cfg.u.quotas[o.arg].maxLevels)-1 {
 			return false, nil
 		}
 		s.maxLvl[o.arg]++
@@ -409,7 +447,7 @@ func (s *c03Sys) applyReal(op int, check bool) (bool, []mc.Violation) {
 		s.lowered[o.arg] = true
 		s.updateQuota(o.arg)
 	case c03OpToggleMin:
-		s.minLvl[o.arg] = (s.minLvl[o.arg] + 1) % len(c03Quotas[o.arg].minLevels)
+		s.minLvl[o.arg] = (s.minLvl[o.arg] + 1) % len(s.cfg.u.quotas[o.arg].minLevels)
 		s.updateQuota(o.arg)
 	case c03OpNodeAdd:
 		if s.hasN2 {
@@ -424,7 +462,7 @@ func (s *c03Sys) applyReal(op int, check bool) (bool, []mc.Violation) {
 		s.pl.OnNodeDelete(s.node2)
 		s.hasN2 = false
 	case c03OpSync:
-		s.mgr.RefreshRuntime(c03Quotas[o.arg].name)
+		s.mgr.RefreshRuntime(s.cfg.u.quotas[o.arg].name)
 	}
 	s.hist = append(s.hist, uint8(op))
 	return true, viol
@@ -444,7 +482,7 @@ type c03Ledger struct {
 func (s *c03Sys) ledger() c03Ledger {
 	var l c03Ledger
 	copy(l.podSt[:], s.podSt)
-	for q := range c03Quotas {
+	for q := range s.cfg.u.quotas {
 		l.maxLvl[q], l.minLvl[q] = int8(s.maxLvl[q]), int8(s.minLvl[q])
 	}
 	l.hasN2 = s.hasN2
@@ -452,7 +490,7 @@ func (s *c03Sys) ledger() c03Ledger {
 }
 
 // enabled mirrors the guards of applyReal (which remain authoritative whenever an event is executed).
-func (l *c03Ledger) enabled(o c03Op) bool {
+func (l *c03Ledger) enabled(u *c03Universe, o c03Op) bool {
 	switch o.kind {
 	case c03OpCreate:
 		return l.podSt[o.arg] == c03Absent
@@ -463,7 +501,7 @@ func (l *c03Ledger) enabled(o c03Op) bool {
 	case c03OpDelete:
 		return l.podSt[o.arg] != c03Absent
 	case c03OpRaiseMax:
-		return int(l.maxLvl[o.arg]) < len(c03Quotas[o.arg].maxLevels)-1
+		return int(l.maxLvl[o.arg]) < len(u.quotas[o.arg].maxLevels)-1
 	case c03OpLowerMax:
 		return l.maxLvl[o.arg] > 0
 	case c03OpNodeAdd:
@@ -582,7 +620,7 @@ func c03Read(rl corev1.ResourceList, d int) (int64, bool) {
 func (s *c03Sys) checkedQuotas(leaf int) []int {
 	qs := []int{leaf}
 	if s.cfg.checkParent {
-		for x := c03Parent[leaf]; x >= 0; x = c03Parent[x] {
+		for x := s.cfg.u.quotas[leaf].parent; x >= 0; x = s.cfg.u.quotas[x].parent {
 			qs = append(qs, x)
 		}
 	}
@@ -591,9 +629,11 @@ func (s *c03Sys) checkedQuotas(leaf int) []int {
 
 // currentLimits returns, per checked quota, "the quota's current limit": its max (from the ledger: the value
 // the harness last delivered through OnQuotaUpdate) when runtime quota is off; otherwise its runtime quota as
-// published by RefreshRuntime on a SHADOW system - a fresh replay of the same history - so that reading the
-// limit neither perturbs the system under exploration nor depends on whether PreFilter refreshed anything.
-// What number the runtime quota is, is property C02's business; C03 only takes it as the limit.
+// published by RefreshRuntime(<the pod's quota>) - the call by which the plugin and the controller bring the
+// runtime of a leaf and of its ancestors up to date - executed on a SHADOW system, a fresh replay of the same
+// history, so that reading the limit neither perturbs the system under exploration nor depends on whether
+// PreFilter itself refreshed anything. What number the runtime quota is, is property C02's business; C03 only
+// takes it as the limit.
 func (s *c03Sys) currentLimits(qs []int) map[int]c03Limit {
 	out := map[int]c03Limit{}
 	if !s.cfg.runtime {
@@ -605,11 +645,9 @@ func (s *c03Sys) currentLimits(qs []int) map[int]c03Limit {
 	sh := c03NewSys(s.cfg)
 	sh.pending = append(sh.pending, s.hist...)
 	sh.build()
-	for i := len(qs) - 1; i >= 0; i-- { // root-most first, the pod's quota last
-		sh.mgr.RefreshRuntime(c03Quotas[qs[i]].name)
-	}
+	sh.mgr.RefreshRuntime(s.cfg.u.quotas[qs[0]].name)
 	for _, q := range qs {
-		sum, ok := sh.mgr.GetQuotaSummary(c03Quotas[q].name, false)
+		sum, ok := sh.mgr.GetQuotaSummary(s.cfg.u.quotas[q].name, false)
 		if !ok {
 			panic("c03: quota vanished in shadow")
 		}
@@ -633,45 +671,53 @@ type c03Expectation struct {
 	// the statement leaves the outcome open and the oracle accepts both.
 	anyOver                   bool
 	overLeaf, overAnc, overNP bool
+	overFarAncOnly            bool // only an ancestor beyond the direct parent is over
 	tight                     bool // a charged dimension lands exactly on its limit
 	belowMax                  bool // the binding limit of the pod's quota is below its max in some dimension
 	missing                   string
 	detail                    []string
+	limits                    map[int]c03Limit
 }
 
 func (s *c03Sys) expectation(pi int) c03Expectation {
-	d := c03Pods[pi]
+	u := s.cfg.u
+	d := u.pods[pi]
 	qs := s.checkedQuotas(d.quota)
 	lims := s.currentLimits(qs)
-	e := c03Expectation{mustHold: true}
-	for _, q := range qs {
+	e := c03Expectation{mustHold: true, limits: lims}
+	overDirect, overFar := false, false
+	for i, q := range qs {
 		used := s.refUsed(q, false)
 		l := lims[q]
-		for k := 0; k < c03ND; k++ { // every quota of the universe declares exactly cpu and memory
+		for k := 0; k < c03ND; k++ { // every quota of the universes declares exactly cpu and memory
 			if !l.present[k] {
-				e.missing = fmt.Sprintf("%s has no runtime limit for declared dimension %s", c03Quotas[q].name, c03DimName[k])
+				e.missing = fmt.Sprintf("%s has no runtime limit for declared dimension %s", u.quotas[q].name, c03DimName[k])
 				continue
 			}
 			tot := used[k] + d.req[k]
-			if l.val[k] < s.max(q)[k] && q == d.quota {
+			if i == 0 && l.val[k] < s.max(q)[k] {
 				e.belowMax = true
 			}
 			if tot > l.val[k] {
 				e.anyOver = true
-				if q == d.quota {
+				switch {
+				case i == 0:
 					e.overLeaf = true
-				} else {
-					e.overAnc = true
+				case i == 1:
+					e.overAnc, overDirect = true, true
+				default:
+					e.overAnc, overFar = true, true
 				}
 				if d.req[k] > 0 {
 					e.mustHold = false
 				}
-				e.detail = append(e.detail, fmt.Sprintf("%s.%s: used %d + request %d > limit %d", c03Quotas[q].name, c03DimName[k], used[k], d.req[k], l.val[k]))
+				e.detail = append(e.detail, fmt.Sprintf("%s.%s: used %d + request %d > limit %d", u.quotas[q].name, c03DimName[k], used[k], d.req[k], l.val[k]))
 			} else if tot == l.val[k] && d.req[k] > 0 {
 				e.tight = true
 			}
 		}
 	}
+	e.overFarAncOnly = overFar && !overDirect && !e.overLeaf
 	if d.nonPreemptible {
 		np := s.refUsed(d.quota, true)
 		min := s.min(d.quota)
@@ -682,7 +728,7 @@ func (s *c03Sys) expectation(pi int) c03Expectation {
 				if d.req[k] > 0 {
 					e.mustHold = false
 				}
-				e.detail = append(e.detail, fmt.Sprintf("%s.%s: non-preemptible used %d + request %d > min %d", c03Quotas[d.quota].name, c03DimName[k], np[k], d.req[k], min[k]))
+				e.detail = append(e.detail, fmt.Sprintf("%s.%s: non-preemptible used %d + request %d > min %d", u.quotas[d.quota].name, c03DimName[k], np[k], d.req[k], min[k]))
 			} else if tot == min[k] && d.req[k] > 0 {
 				e.tight = true
 			}
@@ -711,7 +757,8 @@ func (s *c03Sys) attempt(pi int, check bool) []mc.Violation {
 		return nil
 	}
 	res := s.cfg.res
-	d := c03Pods[pi]
+	u := s.cfg.u
+	d := u.pods[pi]
 	var viol []mc.Violation
 	res.Count("attempts", 1)
 	if d.undeclared > 0 {
@@ -743,7 +790,7 @@ func (s *c03Sys) attempt(pi int, check bool) []mc.Violation {
 				why = "nonpreemptible-min"
 			}
 			viol = append(viol, mc.Violation{Key: s.vkey("admitted-over-limit|" + why),
-				What: fmt.Sprintf("pod %s (quota %s, request %v, nonPreemptible=%v) was admitted by PreFilter although: %s", d.name, c03Quotas[d.quota].name, d.req, d.nonPreemptible, strings.Join(e.detail, "; "))})
+				What: fmt.Sprintf("pod %s (quota %s, request %v, nonPreemptible=%v) was admitted by PreFilter although: %s", d.name, u.quotas[d.quota].name, d.req, d.nonPreemptible, strings.Join(e.detail, "; "))})
 		}
 		if rst.Code() != c03fwk.Success {
 			viol = append(viol, mc.Violation{Key: s.vkey("reserve-failed"), What: fmt.Sprintf("Reserve after a successful PreFilter returned %v", rst)})
@@ -764,10 +811,13 @@ func (s *c03Sys) attempt(pi int, check bool) []mc.Violation {
 		if e.overAnc {
 			res.Count("rejections_with_ancestor_limit_exceeded", 1)
 		}
+		if e.overFarAncOnly {
+			res.Count("rejections_only_by_an_ancestor_beyond_the_direct_parent", 1)
+		}
 		if !e.anyOver {
 			viol = append(viol, mc.Violation{Key: s.vkey("rejected-within-limits"),
-				What: fmt.Sprintf("pod %s (quota %s, request %v, nonPreemptible=%v) was rejected (%q) although usage + request stays within every limit the property names (ledger: own used %v, limits %v)",
-					d.name, c03Quotas[d.quota].name, d.req, d.nonPreemptible, st.Message(), s.refUsed(d.quota, false), s.currentLimits(s.checkedQuotas(d.quota)))})
+				What: fmt.Sprintf("pod %s (quota %s, request %v, nonPreemptible=%v) was rejected (%q) although usage + request stays within every limit the property names (ledger: own used %v, non-preemptible used %v, min %v, limits by quota index %v)",
+					d.name, u.quotas[d.quota].name, d.req, d.nonPreemptible, st.Message(), s.refUsed(d.quota, false), s.refUsed(d.quota, true), s.min(d.quota), e.limits)})
 		}
 	default:
 		viol = append(viol, mc.Violation{Key: s.vkey("unexpected-status"),
@@ -783,10 +833,11 @@ func (s *c03Sys) Invariants() []mc.Violation {
 	s.build()
 	var viol []mc.Violation
 	res := s.cfg.res
-	for q := range c03Quotas {
-		sum, ok := s.mgr.GetQuotaSummary(c03Quotas[q].name, false)
+	u := s.cfg.u
+	for q := range u.quotas {
+		sum, ok := s.mgr.GetQuotaSummary(u.quotas[q].name, false)
 		if !ok {
-			viol = append(viol, mc.Violation{Key: s.vkey("quota-vanished"), What: c03Quotas[q].name + " has no summary"})
+			viol = append(viol, mc.Violation{Key: s.vkey("quota-vanished"), What: u.quotas[q].name + " has no summary"})
 			continue
 		}
 		ref := s.refUsed(q, false)
@@ -798,7 +849,7 @@ func (s *c03Sys) Invariants() []mc.Violation {
 		if code != ref {
 			// accounting exactness is property C01; reported, never an alarm here
 			res.Count("diag_code_used_differs_from_ledger", 1)
-			res.Diag(fmt.Sprintf("%s: code used %v, ledger %v after %v", c03Quotas[q].name, code, ref, s.histNames()))
+			res.Diag(fmt.Sprintf("%s: code used %v, ledger %v after %v", u.quotas[q].name, code, ref, s.histNames()))
 		}
 		over := false
 		for k := 0; k < c03ND; k++ {
@@ -809,7 +860,7 @@ func (s *c03Sys) Invariants() []mc.Violation {
 		// The invariant follows from the admission rule for the quotas whose limit the rule makes binding: the
 		// quotas pods are admitted against directly (leaves) in every configuration, ancestors only when
 		// parent checking is on (without it children's max may legitimately add up to more than the parent's).
-		binding := !c03Quotas[q].isParent || s.cfg.checkParent
+		binding := !u.quotas[q].isParent || s.cfg.checkParent
 		switch {
 		case !binding:
 			if over {
@@ -827,8 +878,8 @@ func (s *c03Sys) Invariants() []mc.Violation {
 				res.Count("invariant_checked_with_used_equal_max", 1)
 			}
 			if over {
-				viol = append(viol, mc.Violation{Key: s.vkey("used-above-max|" + c03Quotas[q].name),
-					What: fmt.Sprintf("quota %s, whose max %v was never lowered on this path, shows used %v (ledger of reserved pods: %v)", c03Quotas[q].name, max, code, ref)})
+				viol = append(viol, mc.Violation{Key: s.vkey("used-above-max|" + u.quotas[q].name),
+					What: fmt.Sprintf("quota %s, whose max %v was never lowered on this path, shows used %v (ledger of reserved pods: %v)", u.quotas[q].name, max, code, ref)})
 			}
 		}
 	}
@@ -914,61 +965,68 @@ func c03Args(runtime, checkParent bool) *c03config.ElasticQuotaArgs {
 	return &args
 }
 
-func c03NewCfg(env *mc.Env, prefix string, runtime, checkParent, withSync bool, nPods, depth, weight int) *c03Cfg {
+func c03NewCfg(prefix string, u *c03Universe, runtime, checkParent, withSync bool, nPods, depth, weight int) *c03Cfg {
 	b2i := map[bool]int{false: 0, true: 1}
-	cfg := &c03Cfg{part: fmt.Sprintf("%s-rt%d-cp%d", prefix, b2i[runtime], b2i[checkParent]), runtime: runtime, checkParent: checkParent,
-		args: c03Args(runtime, checkParent), newPlugin: c03LiteralPlugin, withSync: withSync, depth: depth, weight: weight, memo: c03NewMemo()}
-	for pi := range c03Pods {
-		if pi < nPods {
-			cfg.pods = append(cfg.pods, pi)
-		}
+	if nPods > len(u.pods) {
+		nPods = len(u.pods)
 	}
+	cfg := &c03Cfg{part: fmt.Sprintf("%s-rt%d-cp%d", prefix, b2i[runtime], b2i[checkParent]), u: u, runtime: runtime, checkParent: checkParent,
+		args: c03Args(runtime, checkParent), newPlugin: c03LiteralPlugin, withSync: withSync, nPods: nPods, depth: depth, weight: weight, memo: c03NewMemo()}
 	c03BuildOps(cfg)
 	return cfg
 }
 
-// c03Plan lists the parts of a tier. "hist" parts: the closed-loop alphabet without the controller's runtime sync
-// (every effect of a sync is also produced by an attempt of a pod of that quota, which starts with the same
-// RefreshRuntime call); "sync" parts add the three sync events on the runtime-quota configurations, on the
-// smaller pod set, because they multiply the number of distinct (stale / refreshed) manager states.
+// c03Plan lists the parts of a tier.
+//   - "hist": the tree universe, closed-loop alphabet without the controller's runtime sync (every effect of a
+//     sync is also produced by an attempt of a pod of that quota, which starts with the same RefreshRuntime call);
+//   - "chain": the chain universe (two ancestors), all four configurations;
+//   - "sync": the tree universe plus the three sync events on the runtime-quota configurations, with the smaller
+//     pod set, because the syncs multiply the number of distinct (stale / refreshed) manager states.
 func c03Plan(env *mc.Env) []*c03Cfg {
 	var cfgs []*c03Cfg
 	for _, rt := range []bool{false, true} {
 		for _, cp := range []bool{false, true} {
-			w := 2
+			w := 3
 			if rt {
-				w = 4
+				w = 6
 			}
-			cfgs = append(cfgs, c03NewCfg(env, "hist", rt, cp, false, env.Pick(6, 8), env.Pick(5, 7), w))
+			cfgs = append(cfgs, c03NewCfg("hist", c03Tree, rt, cp, false, env.Pick(6, 7), env.Pick(5, 7), w))
+		}
+	}
+	for _, rt := range []bool{false, true} {
+		for _, cp := range []bool{false, true} {
+			cfgs = append(cfgs, c03NewCfg("chain", c03Chain, rt, cp, rt && env.Thorough(), 4, env.Pick(5, 7), 1+env.Pick(0, 1)))
 		}
 	}
 	if env.Thorough() {
-		cfgs = append(cfgs, c03NewCfg(env, "sync", true, false, true, 6, 6, 3), c03NewCfg(env, "sync", true, true, true, 6, 6, 3))
+		cfgs = append(cfgs, c03NewCfg("sync", c03Tree, true, false, true, 6, 6, 4), c03NewCfg("sync", c03Tree, true, true, true, 6, 6, 4))
 	} else {
-		cfgs = append(cfgs, c03NewCfg(env, "sync", true, true, true, 6, 4, 2))
+		cfgs = append(cfgs, c03NewCfg("sync", c03Tree, true, true, true, 6, 4, 2))
 	}
 	return cfgs
 }
 
-var c03Assumptions = []string{
-	"quota tree root->{c03-p->{c03-a, c03-b(non-lending)}, c03-c}; every quota declares exactly cpu and memory in max and min (the webhook forces parent and children to declare the same max keys); every (max,min) level reachable by the alphabet satisfies the webhook rules",
-	"pods always carry the quota-name label; a pod is created (informer add, pending) before it is attempted, attempted only while pending, unreserved only while reserved (framework order); a deleted pod name may be created again (new incarnation)",
-	"plugin arguments are the package defaults (min-quota scaling on, no hook plugins) except the two switches; bind / pod update events, quota deletion and re-parenting and multi quota trees are not part of the alphabet",
-	"with runtime quota on, 'the current limit' is the value RefreshRuntime publishes on a shadow replay of the same history (its numeric correctness is property C02)",
-	"counters are incremented once per judged execution (BFS repeats and violation confirmations re-execute and count again)",
+func c03Assumptions(cfg *c03Cfg) []string {
+	return []string{
+		"quota universe " + cfg.u.name + ": " + cfg.u.desc + "; every quota declares exactly cpu and memory in max and min (the webhook forces parent and children to declare the same max keys); every (max,min) level reachable by the alphabet satisfies the webhook rules",
+		"pods always carry the quota-name label; a pod is created (informer add, pending) before it is attempted, attempted only while pending, unreserved only while reserved (framework order); PreFilter and Reserve of one scheduling cycle are not separated by other events; a deleted pod name may be created again (new incarnation)",
+		"plugin arguments are the package defaults (min-quota scaling on, no hook plugins) except the two switches; bind / pod update events, quota deletion and re-parenting and multi quota trees are not part of the alphabet",
+		"with runtime quota on, 'the current limit' is the value RefreshRuntime publishes on a shadow replay of the same history (its numeric correctness is property C02)",
+		"counters are incremented once per judged execution (BFS repeats and violation confirmations re-execute and count again)",
+	}
 }
 
 func c03RunPart(t *testing.T, env *mc.Env, cfg *c03Cfg, budget time.Duration) {
 	res := mc.NewResult("C03", cfg.part, "bfs")
 	cfg.res = res
-	res.Assumptions = c03Assumptions
+	res.Assumptions = c03Assumptions(cfg)
 	var names []string
 	for _, o := range cfg.ops {
 		names = append(names, o.name)
 	}
-	res.Rule = fmt.Sprintf("every history up to the depth bound over the %d-event alphabet %v on a fresh real Plugin (EnableRuntimeQuota=%v, EnableCheckParentQuota=%v), successors by replay; "+
+	res.Rule = fmt.Sprintf("every history up to the depth bound over the %d-event alphabet %v on a fresh real Plugin (universe %s: %s; EnableRuntimeQuota=%v, EnableCheckParentQuota=%v), successors by replay; "+
 		"states are distinct canonical dumps of the whole GroupQuotaManager + the harness ledger (pod phases, max/min levels, 'max was lowered' flags); "+
-		"every attempt is judged against the ledger, every state against used<=max", len(cfg.ops), names, cfg.runtime, cfg.checkParent)
+		"every attempt is judged against the ledger, every state against used<=max", len(cfg.ops), names, cfg.u.name, cfg.u.desc, cfg.runtime, cfg.checkParent)
 	penv := mc.LoadEnv() // own clock for this part; results are emitted through the unit's env
 	penv.Budget = budget
 	b := &mc.BFS{Res: res, Env: penv, New: func() mc.System { return c03NewSys(cfg) }, NumOps: len(cfg.ops),
@@ -977,12 +1035,16 @@ func c03RunPart(t *testing.T, env *mc.Env, cfg *c03Cfg, budget time.Duration) {
 	if res.Bounds == nil {
 		res.Bounds = map[string]any{}
 	}
-	res.Bounds["pods"] = len(cfg.pods)
+	res.Bounds["pods"] = cfg.nPods
+	res.Bounds["quotas"] = len(cfg.u.quotas)
+	res.Bounds["target_depth"] = cfg.depth
 	res.Bounds["map_order_repeats"] = b.Repeats
 	res.WallS = penv.Elapsed().Seconds()
-	for _, c := range []string{"admissions", "rejections", "invariant_checked_with_used_positive"} {
-		if res.Counters[c] == 0 {
-			res.Diag("VACUITY WARNING: counter " + c + " is zero")
+	if env.Replay == "" {
+		for _, c := range []string{"admissions", "rejections", "invariant_checked_with_used_positive"} {
+			if res.Counters[c] == 0 {
+				res.Diag("VACUITY WARNING: counter " + c + " is zero")
+			}
 		}
 	}
 	env.Emit(res)
@@ -990,7 +1052,6 @@ func c03RunPart(t *testing.T, env *mc.Env, cfg *c03Cfg, budget time.Duration) {
 
 type c03Replay struct {
 	Ops []string `json:"ops"`
-	Idx []uint8  `json:"idx"`
 }
 
 func TestVerifC03Hist(t *testing.T) {
@@ -1038,6 +1099,7 @@ func TestVerifC03Hist(t *testing.T) {
 		if !sel(cfg.part) {
 			continue
 		}
+		// a part that finishes early leaves its time to the parts after it
 		remaining := env.Budget - env.Elapsed()
 		if remaining < time.Second {
 			remaining = time.Second
@@ -1068,9 +1130,9 @@ func c03Trace(cfg *c03Cfg, hist []string) string {
 		s.build()
 		en, _ := s.applyReal(op, false) // outcomes only; the ledger oracle is not what is compared here
 		fmt.Fprintf(&sb, "%s enabled=%v pods=%v;", n, en, s.podSt)
-		for q := range c03Quotas {
-			sum, _ := s.mgr.GetQuotaSummary(c03Quotas[q].name, false)
-			fmt.Fprintf(&sb, " %s used=%s np=%s req=%s rt=%s", c03Quotas[q].name, printResourceList(sum.Used), printResourceList(sum.NonPreemptibleUsed),
+		for q := range cfg.u.quotas {
+			sum, _ := s.mgr.GetQuotaSummary(cfg.u.quotas[q].name, false)
+			fmt.Fprintf(&sb, " %s used=%s np=%s req=%s rt=%s", cfg.u.quotas[q].name, printResourceList(sum.Used), printResourceList(sum.NonPreemptibleUsed),
 				printResourceList(sum.Request), printResourceList(sum.Runtime))
 		}
 		sb.WriteString("\n")
@@ -1088,8 +1150,8 @@ func c03Smoke(t *testing.T, env *mc.Env) {
 	agree := int64(0)
 	for _, rt := range []bool{false, true} {
 		for _, h := range hists {
-			lit := c03NewCfg(env, "smoke", rt, true, false, 6, 0, 1)
-			viaNew := c03NewCfg(env, "smoke", rt, true, false, 6, 0, 1)
+			lit := c03NewCfg("smoke", c03Tree, rt, true, false, 6, 0, 1)
+			viaNew := c03NewCfg("smoke", c03Tree, rt, true, false, 6, 0, 1)
 			viaNew.newPlugin = func(cfg *c03Cfg) *Plugin {
 				// a fresh real plugin per system: New() through the fixture, then only the two switches are set
 				s2 := newPluginTestSuit(t, nil)
